@@ -241,10 +241,93 @@ def run_case(case, res):
 
 
 # ------------------------------------------------------------------------------
+# (b) a pilot ends while the application is submitting
 #
+# `submit_tasks` (application thread) registers new tasks under the manager's
+# task lock while the pilot manager's thread walks the registry to fail the
+# tasks of a final pilot.  Every non-final task the pilot had at that moment
+# must end FAILED, whatever the interleaving.
+#
+def run_submit_race(case, res):
+    import sys
+    import time
+    import threading as mt
+
+    pm = make_pmgr()
+    tm = make_tmgr()
+    p  = make_pilot(pm, 'pilot.0000')
+    tm.add_pilots(p)
+    own = list()
+    for i in range(case['n_own']):
+        uid = 'own.%04d' % i
+        own.append(make_task(tm, uid))
+        tm._update_tasks([{'uid': uid, 'type': 'task',
+                           'state': rps.AGENT_EXECUTING_PENDING,
+                           'pilot': 'pilot.0000'}])
+    stop = mt.Event()
+    errs = list()
+
+    def submitter():
+        i = 0
+        try:
+            while not stop.is_set() and i < case['n_new']:
+                with tm._tasks_lock:          # as TaskManager.submit_tasks
+                    make_task(tm, 'new.%05d' % i)
+                i += 1
+        except Exception as e:
+            errs.append('submit: %r' % e)
+
+    def death():
+        time.sleep(case['delay'])
+        try:
+            pm._state_sub_cb(rpc.STATE_PUBSUB, {'cmd': 'update', 'arg': [
+                {'uid': 'pilot.0000', 'type': 'pilot',
+                 'state': case['final']}]})
+        except Exception as e:
+            errs.append('pilot: %r' % e)
+
+    old = sys.getswitchinterval()
+    sys.setswitchinterval(1e-5)
+    try:
+        a = mt.Thread(target=submitter, name='app-submit')
+        b = mt.Thread(target=death,     name='pmgr-cb')
+        a.start(); b.start()
+        b.join(timeout=60)
+        stop.set()
+        a.join(timeout=60)
+    finally:
+        sys.setswitchinterval(old)
+
+    res.count('submit_race_histories')
+    ctx = {'case': case, 'errors': errs}
+    if a.is_alive() or b.is_alive():
+        res.violation('submit-race/deadlock', 'threads did not finish', ctx)
+        return
+    for e in errs:
+        res.violation('submit-race/raised', e, ctx)
+        return
+    bad = [t.uid for t in own if t.state != rps.FAILED]
+    res.count('own_tasks_checked', len(own))
+    if bad:
+        res.violation('own-task-not-failed', '%d of %d non-final tasks of '
+                      'the final pilot were not failed while the application '
+                      'was submitting (e.g. %s)' % (len(bad), len(own),
+                                                    bad[:3]), ctx)
+
+
 def run(ctx):
 
     res = Result()
+    rng = ctx.rng('race')
+    for i in range(ctx.n(64, 1600)):
+        case = {'kind': 'submit-race', 'n_own': rng.choice([50, 400, 1500]),
+                'n_new': 4000, 'delay': rng.choice([0.0005, 0.002, 0.005]),
+                'final': rng.choice([rps.FAILED, rps.DONE, rps.CANCELED])}
+        run_submit_race(case, res)
+        res.evaluations += 1
+        if len(res.violations) > 30:
+            break
+
     rng = ctx.rng('cases')
 
     for i in range(ctx.n(6000, 200000)):
@@ -266,6 +349,13 @@ def run(ctx):
 
 def replay(case, ctx):
     res = Result()
+    if case['case'].get('kind') == 'submit-race':
+        for _ in range(10):
+            run_submit_race(case['case'], res)
+            if res.violations:
+                break
+        res.evaluations = 1
+        return res
     run_case(case['case'], res)
     res.evaluations = 1
     return res
